@@ -16,11 +16,27 @@ const LEVELS: [log::Level; 5] = [log::Level::Error, log::Level::Warn, log::Level
 /// `console-child <stdout|stderr> <tty_only>`: one appender, one record per level
 pub fn child(args: &[String]) {
     let target = if args[0] == "stderr" { log4rs::append::console::Target::Stderr } else { log4rs::append::console::Target::Stdout };
-    let a = log4rs::append::console::ConsoleAppender::builder()
-        .target(target)
-        .tty_only(args[1] == "true")
-        .encoder(Box::new(log4rs::encode::pattern::PatternEncoder::new("<{h({l} {h({t})})}|{m}>{n}")))
-        .build();
+    let pattern = "<{h({l} {h({t})})}|{m}>{n}";
+    let a: Box<dyn Append> = if args.get(2).map(|s| s == "config").unwrap_or(false) {
+        // from a configuration value; keys whose documented default is wanted are left out
+        let mut doc = json!({"encoder": {"pattern": pattern}});
+        if args[0] == "stderr" {
+            doc["target"] = json!("stderr");
+        }
+        if args[1] == "true" {
+            doc["tty_only"] = json!(true);
+        }
+        let v: serde_value::Value = serde_json::from_value(doc).unwrap();
+        log4rs::config::Deserializers::default().deserialize::<dyn Append>("console", v).expect("console appender from configuration")
+    } else {
+        Box::new(
+            log4rs::append::console::ConsoleAppender::builder()
+                .target(target)
+                .tty_only(args[1] == "true")
+                .encoder(Box::new(log4rs::encode::pattern::PatternEncoder::new(pattern)))
+                .build(),
+        )
+    };
     for l in LEVELS {
         let r = a.append(&log::Record::builder().level(l).target("tg").args(format_args!("payload")).build());
         if r.is_err() {
@@ -125,12 +141,12 @@ fn well_formed(seq: &str) -> bool {
     true
 }
 
-fn check_row(case: &Value, exe: &str) -> Option<Value> {
+fn check_row(case: &Value, exe: &str, idx: usize) -> Option<Value> {
     let r = &case["row"];
     let (out_end, out_fd) = make(r["out_tty"].as_bool().unwrap());
     let (err_end, err_fd) = make(r["err_tty"].as_bool().unwrap());
     let mut cmd = Command::new(exe);
-    cmd.arg("console-child").arg(r["target"].as_str().unwrap()).arg(r["tty_only"].to_string());
+    cmd.arg("console-child").arg(r["target"].as_str().unwrap()).arg(r["tty_only"].to_string()).arg(if idx % 2 == 1 { "config" } else { "builder" });
     for (var, key) in [("NO_COLOR", "no_color"), ("CLICOLOR", "clicolor"), ("CLICOLOR_FORCE", "force")] {
         match r[key].as_str().unwrap() {
             "unset" => {
@@ -255,7 +271,7 @@ pub fn main(args: &[String]) {
     let rows = read_ndjson(&args[0]);
     let exe = std::env::current_exe().unwrap().to_string_lossy().to_string();
     let res = par_map(&rows, 8, |i, c| {
-        let m = if c["kind"] == "row" { check_row(c, &exe) } else { check_style(c) };
+        let m = if c["kind"] == "row" { check_row(c, &exe, i) } else { check_style(c) };
         m.into_iter().map(|m| json!({"case": i, "input": c, "mismatch": m})).collect()
     });
     write_ndjson(&args[1], &res);
